@@ -35,6 +35,14 @@ def analyze(scen, r, props):
         names = sorted({a.split(":")[0] for a, _ in r["dead_actors"]})
         V("C06", f"actor-died:{'+'.join(names)}", f"library threads died with an exception: {r['dead_actors'][:3]}")
         V("C09", f"actor-died:{'+'.join(names)}", f"library threads died with an exception: {r['dead_actors'][:3]}")
+    if r.get("hung") and not expect_hang and scen.get("may_starve"):
+        # scenario flag may_starve {job variable: amount it requests}: the capacity of the token depends on which process defined it
+        # last; a job that requests more than the capacity its own process sees at the end "does not fit" - its waiting is no hang
+        # (the capacity is what token.info says on disk at the end - not what a process believes)
+        tot = {t["pid"]: t.get("info") for t in (r.get("tokens_end") or []) if t.get("info") is not None}
+        waiting = {v: (j, s) for tag, s in r.get("scripts", {}).items() for v, j in s["jobs"].items() if j["state"] not in FINAL}
+        if tot and waiting and all(v in scen["may_starve"] and scen["may_starve"][v] > max(tot.values()) for v in waiting):
+            expect_hang = True
     if r.get("hung") and not expect_hang:
         who = sorted({h.split(":")[0] for h in r["hung"]})
         waiting = {v: j["state"] for s in r.get("scripts", {}).values() for v, j in s["jobs"].items() if j["state"] not in FINAL}
